@@ -1,4 +1,5 @@
 import UtilModel.Core.LTSHash
+import UtilModel.Core.LTSComplete
 import UtilModel.Broadcast.Lock
 /-!
 # Broadcast — end-to-end transfer
@@ -14,4 +15,51 @@ theorem C03_accepted (cap fuel : Nat) (h : List Broadcast.Obs)
   acceptedH_satisfies Broadcast.lmodel (fun h => Broadcast.monC03L.accepts h = true)
     Broadcast.C03_obs_l cap fuel h ha
 
+/-! ## completeness of the candidate lists
+
+`complete_broadcast` / `complete_broadcast_core`: every enabled internal event is in `cands s` and
+every enabled observable event is in `evsOf s o`, for the layered model the driver checks against and
+for the core model.
+
+There is no `reject_sound_broadcast` here: `rejectH_sound` needs `LawfulBEq LSt`, and the state
+equality the checker uses (`instBEqLSt`, equality of `St.norm`: channel ids up to closed/open) is a
+deliberate quotient, not the real equality. The REJECT direction for this model needs a version of
+`rejectH_sound` for an equivalence that is a bisimulation on well-formed states. -/
+
+theorem Broadcast.mem_internalCands (n t : Nat) (e : Broadcast.Ev) (ht : t < n)
+    (he : e ∈ [Broadcast.Ev.holdCS t, .tryFail t, .waitCS t, .wakeCS t, .ctxRet t, .ctxTake t]) :
+    e ∈ Broadcast.internalCands n := by
+  unfold Broadcast.internalCands
+  exact List.mem_flatMap.mpr ⟨t, List.mem_range.mpr ht, he⟩
+
+theorem Broadcast.Ev.obs_ev (e : Broadcast.Ev) (o : Broadcast.Obs) (h : e.obs = some o) : o.ev = e := by
+  cases e <;> simp [Broadcast.Ev.obs] at h <;> subst h <;> rfl
+
+theorem Broadcast.cands_complete (s s' : Broadcast.St) (e : Broadcast.Ev)
+    (hs : Broadcast.step s e = some s') (ho : e.obs = none) :
+    e ∈ Broadcast.internalCands s.th.length := by
+  cases e <;> simp [Broadcast.Ev.obs] at ho <;> simp only [Broadcast.step] at hs
+  all_goals
+    split at hs <;> try simp at hs
+    all_goals
+      rename_i hth
+      have hlt := (List.getElem?_eq_some_iff.mp hth).1
+      refine Broadcast.mem_internalCands _ _ _ hlt ?_
+      simp
+
+/-- the core model (bodies atomic, no mutex) -/
+theorem complete_broadcast_core : Broadcast.model.Complete :=
+  ⟨fun s e s' hs ho => Broadcast.cands_complete s s' e hs ho,
+   fun _ e _ o _ ho => by simp [Broadcast.model, Broadcast.Ev.obs_ev e o ho]⟩
+
+/-- the layered model the driver checks against -/
+theorem complete_broadcast : Broadcast.lmodel.Complete := by
+  refine ⟨?_, fun _ e _ o _ ho => by simp [Broadcast.lmodel, Broadcast.Ev.obs_ev e o ho]⟩
+  intro s e s' hs ho
+  change Broadcast.lstep s e = some s' at hs
+  unfold Broadcast.lstep at hs
+  split at hs
+  · rename_i l' c' _ hc
+    exact Broadcast.cands_complete s.core c' e hc ho
+  · simp at hs
 end UtilModel
